@@ -150,7 +150,9 @@ def run(ctx):
     r2 = random.Random(ctx.seed * 7919 + 20)      # a stream of its own: the cases above stay what they were
     for k in range(30 if quick else 600):
         v6 = r2.random() < 0.4
-        addr = r2.choice(gen.V6 if v6 else gen.V4)
+        special6 = [__import__("ipaddress").IPv6Address(x) for x in ("::ffff:192.0.2.1", "::ffff:0.0.0.0", "::ffff:255.255.255.255", "::192.0.2.1", "::fffe:192.0.2.1",
+                                                                       "64:ff9b::192.0.2.1", "::1", "fe80::1", "ff02::1")]
+        addr = r2.choice((gen.V6 + special6 + special6) if v6 else gen.V4)
         proto = r2.choice([6, 17, 17, 0, 255])
         port = r2.choice([0, 1, 30490, 30501, 0xFFFF, r2.getrandbits(16)])
         kinds = [0x06, 0x16, 0x26] if v6 else [0x04, 0x14, 0x24]
